@@ -11,7 +11,10 @@ Clause of the statement                                   -> case family
     currently subscribed to its id, once each, in             through MessageListener, after every prefix of
     subscription order, with id, data, timestamp              the history; one global event log orders user
                                                               callbacks, node handlers' hooks and frames the
-                                                              node sent), "id" (one id, one callback)
+                                                              node sent; timestamps of 8 value classes incl.
+                                                              0.0 / 0 and microsecond digits), "id" (one id,
+                                                              one callback), "bus" (virtual python-can bus,
+                                                              notifier thread, given timestamps)
 (2) subscribing the same callback twice does not           -> "hist" (sub ops on an already subscribed
     duplicate delivery                                        callback; bound methods are fetched afresh for
                                                               every call, so "same" means equal, as for the
@@ -24,8 +27,9 @@ Clause of the statement                                   -> case family
                                                               on every id that ever had a subscription)
 (4) outgoing frames carry exactly id, data, remote flag;   -> "id" (send_message and send_periodic for every
     extended format exactly for ids above 0x7FF               11-bit id and sampled 29-bit ids, data as bytes /
-                                                              list / bytearray / None, remote on/off), "hist"
-                                                              (SDO responses of local nodes)
+                                                              list / bytearray / None, remote on/off - also
+                                                              remote with non-empty data), "hist" (SDO
+                                                              responses of local nodes, send ops)
 (5) error and remote frames are not dispatched             -> "id" (4 flag combinations per id), "hist"
                                                               (listener ops with flags inside histories)
 (6) scanner lists each node id once, in order of first     -> "id" (every id alone, stand-alone scanner and
@@ -57,11 +61,22 @@ RULE = ("hist: case = pool of 2-3 node ids + history of up to 120 (quick) / 300 
         "over two 6/7-letter alphabets are enumerated, Hypothesis draws the long ones; a reference multimap "
         "predicts after every frame the exact ordered event log (callback invocations with id/data/timestamp and "
         "a probe of every node object's state, heartbeat/EMCY hook calls, frames sent by local nodes) and the "
-        "scanner list; a final sweep puts a frame on every id that ever had a subscriber; two template histories "
+        "scanner list; frame timestamps come from 8 value classes (0.0, int 0, microsecond fractions below 1 s, Unix "
+        "time with microsecond digits, whole seconds as int, dyadic, 10-us uptime, nanoseconds) besides the running "
+        "1000+i/4 and are compared exactly, also in the node handlers' nmt.timestamp / EMCY timestamp; a send op "
+        "(send_message with bytes/list/bytearray data of 0..8 bytes, remote on/off, inside the history) must put "
+        "exactly that id / data / remote flag / format on the bus (remote frame: data field empty or as given) and "
+        "nothing into the event log; a final sweep puts a frame on every id that ever had a subscriber (notify and "
+        "listener, timestamp classes); two template histories "
         "(remote->local->remote->removed and local->remote->same object again->removed, frames on all its ids in "
         "between) are run for every node id 1..127. id: one case per CAN id (all 2048 11-bit ids, 4096 (quick) / "
         "262144 (thorough) sampled 29-bit ids): send_message/send_periodic variants (bytes, list, bytearray, None; "
-        "remote on/off), listener flag combinations, scanner alone. scan: id sequences (affine permutations of all "
+        "remote on/off, remote=True also with non-empty data of every type: the flag, id and format are demanded, "
+        "data/DLC of a remote frame may be dropped or kept; update() of a remote task with and without data keeps the "
+        "flag), listener flag combinations, listener timestamps incl. 0.0 / 0 and non-dyadic ones, scanner alone. "
+        "bus: 12 (quick) / 192 (thorough) connect/disconnect histories over a python-can virtual bus whose peer "
+        "preserves message timestamps: callbacks get id, data and exactly the timestamp of each frame. "
+        "scan: id sequences (affine permutations of all "
         "2048 ids with 29-bit ids mixed in; Hypothesis sequences over pooled nodes x all 16 function codes with "
         "resets). Non-trivial: hist with >=1 successful replace/remove of "
         "a node and >=1 duplicate subscribe; id with a 29-bit id or 0x7FF/0x800 neighbourhood; scan with a "
@@ -83,6 +98,13 @@ ASSUMPTIONS = [
     "left open",
     "NMT commands 129/130 and the states a node reports initially are C11's business: initial nmt.state is taken "
     "from the object, only changes are predicted",
+    "the frame's timestamp is whatever number the can.Message / the notify() caller carries (0.0 and int included); "
+    "the callback must get that very value (==), no substitution, rounding or unit change",
+    "remote=True with a non-empty data argument: the outgoing frame must be a remote frame with the given id and "
+    "format; its data field may be empty or the given bytes, its DLC 0 or their length (python-can drops the data); "
+    "update(data) on a periodic remote frame may be refused, if accepted the live task is still one remote frame",
+    "bus family: python-can's virtual interface with preserve_timestamps=True on the sending peer hands the "
+    "receiving bus a message with the sender's timestamp; up to 5 s are allowed for the notifier thread to deliver",
 ]
 BUDGET = {"quick": 150, "thorough": 330}
 
@@ -103,6 +125,28 @@ def ref_scan(listed, can_id):
     fc, node = divmod(can_id, 128)
     if node != 0 and fc in PCS_TX and node not in listed:
         listed.append(node)
+
+
+def ts_class(k, x):
+    """Timestamp value classes (k selects the class, x >= 0 varies the value inside it): what interfaces hand
+    out - nothing (0.0 / 0, python-can's default), time since start with micro- or nanosecond digits, Unix time
+    with microsecond digits, whole seconds as int, dyadic fractions. All are exact floats/ints, JSON keeps them."""
+    k %= 8
+    if k == 0:
+        return 0.0
+    if k == 1:
+        return 0
+    if k == 2:
+        return (x % 999983 + 1) / 1e6                   # 0.000001 .. 0.999983
+    if k == 3:
+        return 1700000000 + (x % 16777259) / 1e6 + 1e-6  # Unix time, microsecond digits
+    if k == 4:
+        return 1700000000 + x % 100003                   # whole seconds, int
+    if k == 5:
+        return float(x) + 0.125
+    if k == 6:
+        return (x % 10000019) / 1e4 + 0.00037            # time since start, 10 us digits
+    return (x + 1) * 1e-9                                # nanoseconds after start
 
 
 def ext_sample(i):
@@ -345,7 +389,7 @@ def run_hist(case) -> Outcome:
     net = rig.net
     m = Model()
     D = []
-    stats = {"dup": 0, "removed": 0, "frames": 0, "special": 0, "nodes": 0, "cut": False}
+    stats = {"dup": 0, "removed": 0, "frames": 0, "special": 0, "nodes": 0, "cut": False, "sent": 0, "ts0": 0}
 
     def bad(sig, detail, step):
         D.append(Discrepancy(f"C10/{sig}", f"step {step}: {detail}"))
@@ -459,6 +503,8 @@ def run_hist(case) -> Outcome:
             elif kind == "frame":
                 via = op["via"]
                 stats["frames" if via in ("notify", "listener") else "special"] += 1
+                if via == "listener" and not op["ts"]:
+                    stats["ts0"] += 1
                 deliver(op["id"], bytes(op["data"]), op["ts"], via, step)
             elif kind in ("add_remote", "add_remote_int", "add_remote_eds", "create_local", "set_local"):
                 n = op["n"]
@@ -552,17 +598,37 @@ def run_hist(case) -> Outcome:
             elif kind == "scanner_reset":
                 net.scanner.reset()
                 m.scan = []
+            elif kind == "send":
+                # an outgoing frame in the middle of the history: the peer sees exactly id / data / remote flag,
+                # the format follows the id, nothing is dispatched locally
+                stats["sent"] += 1
+                raw = bytes(op["data"])
+                arg = (raw, list(raw), bytearray(raw))[op["as"] % 3]
+                rig.events.clear()
+                try:
+                    net.send_message(op["id"], arg, op["remote"])
+                except Exception as e:
+                    bad("send_message/raises", f"send_message({op['id']:#x}, {arg!r}, remote={op['remote']}): "
+                        f"{type(e).__name__}: {e}", step)
+                    break
+                # a remote frame has no data field: only its flag, id and format are pinned
+                exp = [("tx", op["id"], {raw, b""} if op["remote"] else {raw}, bool(op["remote"]), op["id"] > 0x7FF)]
+                got = list(rig.events)
+                if not _events_match(exp, got):
+                    bad("send_message/history", f"send_message({op['id']:#x}, {arg!r}, remote={op['remote']}): "
+                        f"expected on the bus {_show_events(exp)} got {_show_events(got)}", step)
             else:
                 raise ValueError(kind)
             if D:
                 break
         # sweep: one frame on every id that ever had a subscriber
         if not D:
-            ts = 9000000.5
+            cnt = 0
             for can_id in sorted(m.ever):
                 for data in sweep_data(can_id):
-                    ts += 1.0
-                    deliver(can_id, data, ts, "notify", f"sweep {can_id:#x}")
+                    cnt += 1
+                    ts = 9000000.5 + cnt if cnt % 3 == 0 else ts_class(cnt + len(case["ops"]), can_id * 131 + cnt)
+                    deliver(can_id, data, ts, "listener" if cnt % 3 == 1 else "notify", f"sweep {can_id:#x}")
                     if D:
                         break
                 if D:
@@ -595,6 +661,10 @@ def run_hist(case) -> Outcome:
         klass += "/dup-subscribe"
     if stats["special"]:
         klass += "/remote-or-error-frame"
+    if stats["ts0"]:
+        klass += "/zero-timestamp"
+    if stats["sent"]:
+        klass += "/send"
     if stats["cut"]:
         klass += "/cut-at-stripped-removal"
     return Outcome(nontrivial, klass, D)
@@ -630,12 +700,19 @@ def run_id(case) -> Outcome:
             bad(f"{how}/remote-flag", f"is_remote_frame = {msg.is_remote_frame} want {remote}")
         if msg.is_error_frame:
             bad(f"{how}/error-flag", "is_error_frame set")
-        if bytes(msg.data) != want or msg.dlc != len(want):
+        if remote and want:
+            # a remote frame has no data field; what becomes of a data argument given together with
+            # remote=True (dropped, kept, its length used as DLC) is not pinned - only the flag, id and format
+            if bytes(msg.data) not in (b"", want) or msg.dlc not in (0, len(want)):
+                bad(f"{how}/data", f"remote frame: data = {bytes(msg.data).hex()} dlc {msg.dlc}, given {want.hex()}")
+        elif bytes(msg.data) != want or msg.dlc != len(want):
             bad(f"{how}/data", f"data = {bytes(msg.data).hex()} dlc {msg.dlc} want {want.hex()}")
 
     d1, d2 = _id_data(can_id, 1), _id_data(can_id, 2)
     variants = [(b"", False), (d1, False), (list(d2), False), (bytearray(d1[::-1]), False),
-                (bytes([0xFF] * 8), False), (b"", True)]
+                (bytes([0xFF] * 8), False), (b"", True),
+                # the remote flag is the caller's, whatever the data argument is
+                (d1, True), (list(d2), True), (bytearray(d2[::-1]), True), (bytes(1), True)]
     for data, remote in variants:
         n0 = len(port.raw_messages)
         try:
@@ -693,6 +770,12 @@ def run_id(case) -> Outcome:
                         tk = net.send_periodic(can_id, data, period, remote)
                         tk.update(b"")
                         tk.update(bytes(_id_data(can_id, 3 + i))[:0])
+                        try:
+                            # data for a frame without data field: refusing it is accepted; if it is taken,
+                            # what goes on transmitting is still the remote frame
+                            tk.update(bytes(_id_data(can_id, 3 + i)))
+                        except Exception:
+                            pass
                         live = [t for t in hub.tasks[t1:] if t.live]
                         if len(live) != 1:
                             bad("update/count", f"{len(live)} live tasks after update() of a remote-frame task "
@@ -720,8 +803,11 @@ def run_id(case) -> Outcome:
         net.subscribe(can_id & 0x7FF, lambda i, d, t: log.append(("low11", i, bytes(d), t)))
     scan = []
     for j, (remote, error) in enumerate([(False, False), (True, False), (False, True), (True, True),
-                                         (False, False)]):
-        ts = 1700000000.25 + j + can_id
+                                         (False, False), (False, False), (False, False), (False, False)]):
+        # the timestamp is the frame's, whatever it is: j = 0..4 dyadic Unix time, then no timestamp at all
+        # (0.0 / 0), then two further value classes that move with the id
+        ts = (1700000000.25 + j + can_id if j < 5 else (0.0, 0)[can_id % 2] if j == 5 else
+              ts_class(2 + (can_id + j) % 6, can_id * 7919 + j))
         data = _id_data(can_id, 3 + j)
         log.clear()
         msg = can.Message(arbitration_id=can_id, data=data, timestamp=ts, is_extended_id=ext,
@@ -837,7 +923,9 @@ _bus_serial = [0]
 def run_bus(case) -> Outcome:
     """Frames received through a real python-can bus (interface 'virtual') and the library's own
     notifier thread, over a history of connect / disconnect / connect: a subscription made on the
-    Network object is served in every connected phase."""
+    Network object is served in every connected phase. A frame given as [id, data, timestamp] is sent by
+    a peer that preserves the timestamp of the message (python-can: preserve_timestamps), so the frame the
+    Network's bus receives carries exactly that timestamp and the callback must be handed it."""
     import os
     import time
 
@@ -850,18 +938,29 @@ def run_bus(case) -> Outcome:
     net.NOTIFIER_CYCLE = 0.01
     got = []
     ids = sorted({f[0] for ph in case["phases"] for f in ph})
+    stamped = {f[0] for ph in case["phases"] for f in ph if len(f) > 2}
     for can_id in ids:
-        net.subscribe(can_id, lambda i, d, t: got.append((i, bytes(d))))
+        if can_id in stamped:
+            net.subscribe(can_id, lambda i, d, t: got.append((i, bytes(d), t)))
+        else:
+            net.subscribe(can_id, lambda i, d, t: got.append((i, bytes(d))))
     try:
         for k, frames in enumerate(case["phases"]):
             net.connect(interface="virtual", channel=channel)
-            peer = can.Bus(interface="virtual", channel=channel)
+            peer = can.Bus(interface="virtual", channel=channel, preserve_timestamps=True)
             try:
                 want = []
                 mark = len(got)
-                for can_id, data in frames:
-                    peer.send(can.Message(arbitration_id=can_id, data=bytes(data), is_extended_id=can_id > 0x7FF))
-                    want.append((can_id, bytes(data)))
+                for fr in frames:
+                    can_id, data = fr[0], fr[1]
+                    if can_id in stamped:
+                        ts = fr[2] if len(fr) > 2 else 1.5
+                        peer.send(can.Message(arbitration_id=can_id, data=bytes(data), is_extended_id=can_id > 0x7FF,
+                                              timestamp=ts))
+                        want.append((can_id, bytes(data), ts))
+                    else:
+                        peer.send(can.Message(arbitration_id=can_id, data=bytes(data), is_extended_id=can_id > 0x7FF))
+                        want.append((can_id, bytes(data)))
                 end = time.monotonic() + 5.0
                 while len(got) - mark < len(want) and time.monotonic() < end:
                     time.sleep(0.002)
@@ -869,8 +968,9 @@ def run_bus(case) -> Outcome:
                 if got[mark:] != want:
                     D.append(Discrepancy("C10/bus/reception",
                                          f"connected phase {k + 1} of {len(case['phases'])}: frames sent by a peer "
-                                         f"{[(hex(i), d.hex()) for i, d in want]}, subscribed callbacks saw "
-                                         f"{[(hex(i), d.hex()) for i, d in got[mark:]]}"))
+                                         f"{[(hex(w[0]), w[1].hex()) + tuple(w[2:]) for w in want]} (id, data"
+                                         f"[, timestamp]), subscribed callbacks saw "
+                                         f"{[(hex(g[0]), g[1].hex()) + tuple(g[2:]) for g in got[mark:]]}"))
                     break
             finally:
                 peer.shutdown()
@@ -952,10 +1052,14 @@ def decode(nodes, free11, free29, raw):
                 if c < 40:
                     ops.append({"op": "scanner_reset"})
                     continue
+                if c < 72:
+                    ops.append({"op": "send", "id": can_id, "data": bytes((b + 29 * j) & 0xFF for j in range(b % 9)),
+                                "as": a // 16, "remote": c % 2 == 1})
+                    continue
                 via = ("remote", "error", "remote+error", "listener")[c % 4]
             else:
                 via = "listener" if kind == 9 else "notify"
-            ts = 1000.0 + i * 0.25 if c < 200 else float(a * 65536 + b * 256 + c) + 0.125
+            ts = 1000.0 + i * 0.25 if c < 150 else ts_class(c, a * 65536 + b * 256 + c)
             ops.append({"op": "frame", "id": can_id, "data": frame_data(can_id, nodes, b, c), "ts": ts,
                         "via": via})
         elif kind in (10, 11):
@@ -990,11 +1094,11 @@ def enum_hist(maxlen):
     alpha1 = [{"op": "sub", "id": A, "cb": 2}, {"op": "sub", "id": A, "cb": 3},
               {"op": "unsub", "id": A, "cb": 2}, {"op": "unsub", "id": A, "cb": 3},
               {"op": "unsub_all", "id": A},
-              {"op": "frame", "id": A, "data": b"\x01\x02\x03", "ts": 12.5, "via": "notify"}]
+              {"op": "frame", "id": A, "data": b"\x01\x02\x03", "ts": 1700000000.123457, "via": "notify"}]
     alpha2 = [{"op": "add_remote", "n": n}, {"op": "create_local", "n": n}, {"op": "del", "n": n},
               {"op": "readd", "k": 0}, {"op": "add_sdo", "k": 0, "rx": 0x640, "tx": 0x5C0},
               {"op": "sub", "id": 0x80 + n, "cb": 0},
-              {"op": "frame", "id": 0x80 + n, "data": bytes([0x10, 0x81, 1, 0, 0, 0, 0, 0]), "ts": 3.0,
+              {"op": "frame", "id": 0x80 + n, "data": bytes([0x10, 0x81, 1, 0, 0, 0, 0, 0]), "ts": 0.0,
                "via": "listener"}]
     for alpha in (alpha1, alpha2):
         def rec(prefix, depth):
@@ -1074,14 +1178,18 @@ def node_templates():
     for n in range(1, 128):
         hb, em, tx, rq = 0x700 + n, 0x80 + n, 0x580 + n, 0x600 + n
 
-        def frames(t):
-            return [{"op": "frame", "id": hb, "data": bytes([5 if t % 2 else 127]), "ts": 50.0 + t, "via": "notify"},
-                    {"op": "frame", "id": em, "data": emcy, "ts": 50.25 + t, "via": "listener"},
-                    {"op": "frame", "id": tx, "data": bytes([0x60, 0, 0x20, 0, 0, 0, 0, 0]), "ts": 50.5 + t,
+        def frames(t, n=n, hb=hb, em=em, tx=tx, rq=rq):
+            def ts(j):
+                # every timestamp class reaches the heartbeat / EMCY handlers of some node id, by both routes
+                return ts_class(n + t + 3 * j, n * 1009 + t * 17 + j)
+            vias = ("notify", "listener") if (n + t) % 2 else ("listener", "notify")
+            return [{"op": "frame", "id": hb, "data": bytes([5 if t % 2 else 127]), "ts": ts(0), "via": vias[0]},
+                    {"op": "frame", "id": em, "data": emcy, "ts": ts(1), "via": vias[1]},
+                    {"op": "frame", "id": tx, "data": bytes([0x60, 0, 0x20, 0, 0, 0, 0, 0]), "ts": ts(2),
                      "via": "notify"},
-                    {"op": "frame", "id": rq, "data": UPLOAD_2000, "ts": 50.75 + t, "via": "listener"},
-                    {"op": "frame", "id": 0, "data": bytes([(1, 2, 128)[t % 3], n if t % 2 else 0]), "ts": 51.0 + t,
-                     "via": "notify"}]
+                    {"op": "frame", "id": rq, "data": UPLOAD_2000, "ts": ts(3), "via": "listener"},
+                    {"op": "frame", "id": 0, "data": bytes([(1, 2, 128)[t % 3], n if t % 2 else 0]), "ts": ts(4),
+                     "via": vias[0]}]
         subs = [{"op": "sub", "id": i, "cb": j} for j, i in enumerate((hb, em, tx, rq, 0))]
         yield {"fam": "hist", "nodes": [n], "ops": subs[:2] + [{"op": "add_remote", "n": n}] + subs[2:] + frames(1) +
                [{"op": "sub", "id": hb, "cb": 0}, {"op": "create_local", "n": n}] + frames(2) +
@@ -1101,10 +1209,11 @@ def showcase():
         {"op": "sub", "id": hb, "cb": 2}, {"op": "sub", "id": hb, "cb": 2}, {"op": "sub", "id": 0, "cb": 0},
         {"op": "add_remote", "n": n}, {"op": "sub", "id": hb, "cb": 3}, {"op": "sub", "id": em, "cb": 4},
         {"op": "frame", "id": hb, "data": b"\x05", "ts": 100.5, "via": "notify"},
-        {"op": "frame", "id": em, "data": emcy, "ts": 101.5, "via": "listener"},
+        {"op": "frame", "id": em, "data": emcy, "ts": 1700000000.123457, "via": "listener"},
+        {"op": "send", "id": hb, "data": b"\x00", "as": 0, "remote": True},
         {"op": "add_sdo", "k": 0, "rx": 0x640, "tx": hb},
         {"op": "frame", "id": hb, "data": b"\x7f", "ts": 102.5, "via": "remote"},
-        {"op": "frame", "id": hb, "data": b"\x7f", "ts": 103.5, "via": "listener"},
+        {"op": "frame", "id": hb, "data": b"\x7f", "ts": 0.0, "via": "listener"},
         {"op": "create_local", "n": n}, {"op": "sub", "id": rq, "cb": 5},
         {"op": "frame", "id": rq, "data": UPLOAD_2000, "ts": 104.5, "via": "notify"},
         {"op": "frame", "id": 0, "data": bytes([1, n]), "ts": 105.5, "via": "notify"},
@@ -1116,9 +1225,26 @@ def showcase():
     for can_id in (0x7FF, 0x800, 0x702, 0x10000702):
         yield {"fam": "id", "id": can_id}
     for phases in ([[(0x123, b"\x01")]], [[(0x123, b"\x01\x02")], [(0x123, b"\x03")]],
-                   [[(0x702, b"\x05"), (0x1FFFFFFF, b"")], [(0x702, b"\x7f")], [(0x80, b"\x00" * 8), (0x702, b"\x04")]]):
-        yield {"fam": "bus", "phases": [[[i, d] for i, d in ph] for ph in phases]}
+                   [[(0x702, b"\x05"), (0x1FFFFFFF, b"")], [(0x702, b"\x7f")], [(0x80, b"\x00" * 8), (0x702, b"\x04")]],
+                   [[(0x123, b"\x01\x02", 0.0), (0x124, b"", 1700000000.123457)],
+                    [(0x123, b"\x03", 1700000003), (0x10000124, b"\x09", 0.000271), (0x124, b"\x04" * 8, 0)]]):
+        yield {"fam": "bus", "phases": [[list(f) for f in ph] for ph in phases]}
     yield {"fam": "scan", "ids": [0x702, 0x10000703, 0x582, 0x604, 0x184, 0x700, 0x81, 0x702], "resets": [7]}
+
+
+def bus_cases(count):
+    """Connect / disconnect histories over a real python-can bus with every frame's timestamp given."""
+    pool = (0x123, 0x702, 0x85, 0x7FF, 0x800, 0x10000702, 0x1FFFFFFF, 0)
+    for k in range(count):
+        phases = []
+        for p in range(1 + k % 3):
+            frames = []
+            for j in range(1 + (k + p) % 4):
+                can_id = pool[(k * 3 + p * 5 + j) % len(pool)]
+                data = b"" if (k + j) % 5 == 0 else _id_data(can_id, k + j)
+                frames.append([can_id, data, ts_class(k + p + j, k * 4099 + p * 131 + j)])
+            phases.append(frames)
+        yield {"fam": "bus", "phases": phases}
 
 
 def search(ctx):
@@ -1145,6 +1271,8 @@ def search(ctx):
     ctx.enumerate(enum_hist(5 if thorough else 4), "all histories up to length 4 (quick) / 5 (thorough) over two "
                   "small alphabets")
     ctx.enumerate(node_templates(), "two mixed remote/local life-cycle histories for every node id 1..127")
+    ctx.enumerate(bus_cases(192 if thorough else 12), "frames with given timestamps (all value classes) received "
+                  "through a python-can virtual bus and the library's notifier thread, 1-3 connected phases")
     n_short, n_mid, n_long, n_scan = EXAMPLES[ctx.tier]
     maxlen = 300 if thorough else 120
     # Round-robin in chunks, so that a budget running out (loaded machine) cuts every generator proportionally
